@@ -328,13 +328,64 @@ def field_mutations(prog, owner):
         for (bb, ow, name, sp, l, pl) in b.mut_borrows_of_fields():
             if ow == owner:
                 mb[l] = [name, sp, False]
+        # a borrow may be moved / re-borrowed into another local before it is used (`let c = if f { &mut a.x } else { &mut a.y }; *c += s`)
+        alias = {l: [l] for l in mb}
+        changed = True
+        rounds = 0
+        while changed and rounds < 4:
+            changed = False
+            rounds += 1
+            for (bb, i, dst, rv, sp) in b.assignments():
+                if dst["p"]:
+                    continue
+                src = None
+                if rv["k"] == "use":
+                    pl = rv["a"].get("m") or rv["a"].get("c")
+                    if pl and not pl["p"]:
+                        src = pl["l"]
+                elif rv["k"] == "ref" and rv["pl"]["p"] == [["d"]]:
+                    src = rv["pl"]["l"]
+                if src is not None and src in alias and dst["l"] != src:
+                    for root in alias[src]:
+                        if root not in alias.setdefault(dst["l"], []):
+                            alias[dst["l"]].append(root)
+                            changed = True
         for c in b.calls():
             for i, a in enumerate(c.args):
                 plx = a.get("m") or a.get("c")
-                if plx and not plx["p"] and plx["l"] in mb:
-                    ent = mb[plx["l"]]
-                    op = c.name.rsplit("::", 1)[-1] + ("" if i == 0 else "#arg%d" % i)
-                    out.setdefault(ent[0], {}).setdefault(op, []).append((fn, c.span))
+                if plx and not plx["p"] and plx["l"] in alias:
+                    for root in alias[plx["l"]]:
+                        ent = mb[root]
+                        op = c.name.rsplit("::", 1)[-1] + ("" if i == 0 else "#arg%d" % i)
+                        if not any(x == (fn, c.span) for x in out.get(ent[0], {}).get(op, [])):
+                            out.setdefault(ent[0], {}).setdefault(op, []).append((fn, c.span))
+                        ent[2] = True
+        # a borrow captured by a closure (`xs.for_each(|x| { self.f.remove(x); })`): the operations are in the closure body
+        for (bb, i, dst, rv, sp) in b.assignments():
+            if rv["k"] == "agg" and rv.get("ak") == "closure":
+                cb = prog.bodies.get(mir.strip_generics(rv["def"]))
+                for nm, op_ in zip(rv.get("fields", []), rv.get("ops", [])):
+                    plx = op_.get("m") or op_.get("c")
+                    if not (plx and not plx["p"] and plx["l"] in alias) or cb is None:
+                        continue
+                    for root in alias[plx["l"]]:
+                        ent = mb[root]
+                        used = False
+                        for c in cb.calls():
+                            for ai, a in enumerate(c.args):
+                                t = cb.operand_term(a)
+                                if K.mentions(t, lambda x: x[0] == "upvar" and x[1] == nm) and not K.mentions(t, lambda x: x[0] == "call"):
+                                    opn = c.name.rsplit("::", 1)[-1] + ("" if ai == 0 else "#arg%d" % ai)
+                                    out.setdefault(ent[0], {}).setdefault(opn, []).append((fn, c.span))
+                                    used = True
+                        if used:
+                            ent[2] = True
+        # direct assignment through an aliased borrow: `*c = v`
+        for (bb, i, dst, rv, sp) in b.assignments():
+            if dst["p"] == [["d"]] and dst["l"] in alias:
+                for root in alias[dst["l"]]:
+                    ent = mb[root]
+                    out.setdefault(ent[0], {}).setdefault("assign", []).append((fn, sp))
                     ent[2] = True
         for l, (name, sp, used) in mb.items():
             if not used:
@@ -451,3 +502,30 @@ def ob_watermark_comparisons(run, oid, prefixes, floor, why):
     for (fn, sp, form, x, y), key in K.ordinal_keys(watermark_comparisons(prog, prefixes), lambda r: "%s|watermark-comparison" % r[0]):
         o.check(form == "X<wm", key, "compares as `X < watermark` / `X >= watermark` (found: %s %s %s)" % (mir.show(x)[:50], "<" if form != "?" else "?", mir.show(y)[:50]), sp,
                 {"form": form})
+
+
+# ------------------------------------------------------------------------------------ monotone writes
+def _strip_ids(t):
+    if isinstance(t, tuple):
+        if t and t[0] == "call" and len(t) > 3:
+            return ("call", t[1], tuple(_strip_ids(a) for a in t[2]))
+        return tuple(_strip_ids(a) for a in t)
+    return t
+
+
+def monotone_write(prog, b, bb, value, field, owner=None):
+    """the write `self.field = value` in block bb can only increase the field: value = max(.., old) / old.max(..), or the write is
+    guarded by old < value (or !(value < old)) for that very value"""
+    v = K.peel(value)
+    if isinstance(v, tuple) and v and v[0] == "call" and v[1].rsplit("::", 1)[-1] == "max" and any(K.mentions_field(a, field, owner) for a in v[2]):
+        return True
+    sv = _strip_ids(v)
+    for a in G.guard_atoms(b, bb, prog):
+        if a[0] != "lt":
+            continue
+        x, y = K.peel(a[1][0]), K.peel(a[1][1])
+        if a[2] is True and K.is_field(x, field, owner) and _strip_ids(y) == sv:       # old < value
+            return True
+        if a[2] is False and K.is_field(y, field, owner) and _strip_ids(x) == sv:      # !(value < old)
+            return True
+    return False
